@@ -161,7 +161,7 @@ def declare(reg):
                  raises={"KeyError": "component not in self.instances"}, raise_frame="unchanged",
                  ensures=["result == self.instances[component]"])
     reg.contract(M, "Broker.get", params=dict(self=Ref("Broker"), component=Comp, default=Opt(Val)),
-                 defaults=dict(default="None"), returns=Opt(Val),
+                 defaults=dict(default="None"), returns=Opt(Val), pure=True,
                  ensures=["result == (self.instances[component] if component in self.instances else default)"])
     reg.contract(M, "Broker.add_exception",
                  params=dict(self=Ref("Broker"), component=Comp, ex=EXC, tb=Opt(STR)), defaults=dict(tb="None"),
@@ -172,7 +172,10 @@ def declare(reg):
                      "implies(isinstance_exc(ex, MissingRequirements), self.exceptions == old(self.exceptions) and self.tracebacks == old(self.tracebacks))",
                      # anything else is appended to exceptions[component], traceback recorded, nothing else touched
                      "implies(not isinstance_exc(ex, MissingRequirements), self.missing_requirements == old(self.missing_requirements))",
-                     "implies(not isinstance_exc(ex, MissingRequirements), component in self.exceptions and seq_eq(self.exceptions[component], excs_of(old(self.exceptions), component) + [ex]))",
+                     "implies(not isinstance_exc(ex, MissingRequirements), component in self.exceptions and "
+                     "   len(self.exceptions[component]) == len(excs_of(old(self.exceptions), component)) + 1 and "
+                     "   self.exceptions[component][len(self.exceptions[component]) - 1] == ex and "
+                     "   forall(j, range(0, len(excs_of(old(self.exceptions), component))), self.exceptions[component][j] == excs_of(old(self.exceptions), component)[j]))",
                      "implies(not isinstance_exc(ex, MissingRequirements), forall(c, Comp, implies(c != component, (c in self.exceptions) == (c in old(self.exceptions)) and implies(c in old(self.exceptions), seq_eq(self.exceptions[c], old(self.exceptions)[c])))))",
                      "implies(not isinstance_exc(ex, MissingRequirements), self.tracebacks == store(old(self.tracebacks), ex, tb))",
                      "forall(b, Ref_Broker, implies(b != self, b.exceptions == old(b.exceptions) and b.missing_requirements == old(b.missing_requirements) and b.tracebacks == old(b.tracebacks)))",
@@ -224,8 +227,7 @@ def declare(reg):
                  ensures=["result == broker"] + RC_POST)
 
     # ------------------------------------------------------------------ toposort (insights/contrib/toposort.py)
-    reg.specfun("nodes", dict(g=Map(Comp, Set(Comp))), Set(Comp), None)
-    reg.axiom("forall(g, GraphT, forall(x, Comp, (x in nodes(g)) == (x in g or exists(k, g, x in g[k]))))")
+    reg.specfun("nodes", dict(g=Map(Comp, Set(Comp))), Set(Comp), "union(keys(g), bigunion(g))")
     reg.sort(GraphT=Map(Comp, Set(Comp)))
     reg.contract(TS, "toposort", params=dict(data=Map(Comp, Set(Comp))), yields=Set(Comp),
                  empties=dict(set=Set(Comp)),
